@@ -27,14 +27,14 @@ Init ==
        /\ (ld + tr > 0 => r = "baseline" /\ c = "daily" /\ h1 = "blockMid" /\ h2 = "blockMid" /\ el /\ ~ng)
        /\ (r = "reporting" => k1 = 0 /\ ~ng /\ el)
        /\ (c = "billing" => k1 = 0)            \* billing usage is given per period, its gaps are Resample's (C08) question
-       /\ (c = "billing" => st = <<2019, 1, 1>> /\ h2 # "blockEarly" /\ (S \in {329, 330, 340, 364, 365} \/ (S = 328 /\ k2 = 0)))   \* the last calendar month is a regular period (>= 25 days), or - once - an off-cycle one   \* billing spans are realised as whole calendar months from 1 January
+       /\ (c = "billing" => st = <<2019, 1, 1>> /\ h2 # "blockEarly" /\ (S \in {329, 330, 364, 365} \/ (S \in {328, 340} /\ k2 = 0)))   \* the last calendar month is a regular period (>= 25 days), or - once - an off-cycle one   \* billing spans are realised as whole calendar months from 1 January
        /\ (ng => ~el)
        /\ (k1 = 0 => h1 = "blockMid") /\ (k2 = 0 => h2 = "blockMid")
        /\ in = [cls |-> c, role |-> r, electric |-> el, negatives |-> ng, start |-> st, span |-> S,
                 omiss |-> Place(S, k1, h1), tmiss |-> Place(S, k2, h2), lead |-> ld, trail |-> tr]
   /\ out = [res |-> "pending"] /\ pc = "call"
 Call == /\ pc = "call"
-        /\ LET v == SetToSortSeq(IF Edge(in) THEN Must(in) \cap {LenName} ELSE Must(in), LAMBDA a, b : TRUE) IN
+        /\ LET v == SetToSortSeq(IF Edge(in) THEN Must(in) \cap ({LenName} \cup CoverageNames) ELSE Must(in), LAMBDA a, b : TRUE) IN
            out' = [res |-> "ok", dq |-> v, warn |-> <<>>, dqSeries |-> v]
         /\ pc' = "done" /\ UNCHANGED in
 Next == Call
